@@ -1,6 +1,9 @@
 import Proofs.Lemmas.ForkChoiceSimBase
 import Proofs.Lemmas.ForkChoiceRefQueries
 import Proofs.Lemmas.ForkChoiceRefQueries2
+import Proofs.Lemmas.ForkChoiceRefJustify
+import Proofs.Lemmas.ForkChoicePruneRef
+import Proofs.Lemmas.ForkChoicePruneInv
 /-! Simulation of the specification by the code-shaped model on admissible histories: `refines_run`, `head_eq_ghost_run`. -/
 namespace Zrnt.ForkChoice
 open Spec FC
@@ -80,6 +83,19 @@ theorem spec_inSub_eq (fc : FC) (a : Abs) (I : FI fc) (r : Ref fc a) (x rt : Roo
         | none => rw [h4] at h2; cases h2
         | some ir => simp [h3, h4]
 
+/-- **`OnPrune` on a related, settled pair**: the invariants survive (`pinv_onPrune`) and the result refines the
+specification's prune with the same success flag and the same sink reports (`ref_onPrune`) -/
+theorem pruneOK : RefJ.PruneOK := by
+  intro fc a I r hset hlog root slot
+  have h1 := pinv_onPrune fc.pa fc.votes fc.balances I root slot
+  have h2 := ref_onPrune fc a I r hset hlog root slot
+  revert h1 h2
+  cases fc.pa.onPrune root slot with
+  | ok s u => exact fun h1 h2 => ⟨h1, h2⟩
+  | err s => exact fun h1 h2 => ⟨h1, h2⟩
+  | panic => exact fun h1 _ => h1
+  | spin => exact fun h1 _ => h1
+
 theorem stepLive_sim (fc : FC) (a : Abs) (hh : fc.held = false) (I : FI fc) (hl : LI fc.pa) (r : Ref fc a) (op : Op)
     (hok : StepOK (.live fc) op) (hni : ∀ spe ar as ap j f sink bals, op ≠ .init spe ar as ap j f sink bals) :
     SimOK op (stepLive fc op) (a.stepLive op) := by
@@ -126,15 +142,15 @@ theorem stepLive_sim (fc : FC) (a : Abs) (hh : fc.held = false) (I : FI fc) (hl 
       { spe := r.spe, nodes := r.nodes, votes := r.votes, balances := r.balances, justified := r.justified,
         finalized := r.finalized, pin := r.pin, sink := r.sink, clean := r.clean, jE := r.jE, fE := r.fE,
         fresh := r.fresh, next_in := r.next_in, cur_le := r.cur_le, settled := r.settled }
-    have hs := ref_updateJustified { fc with pa := { fc.pa with sinkLog := [] } } a hh I0 r0 t j f b hok rfl
+    have hs := ref_updateJustified_full pruneOK { fc with pa := { fc.pa with sinkLog := [] } } a hh I0 r0 t j f b rfl
     show (match (stepLive fc (.justify t j f b)).1 with | .live fc' => Ref fc' (a.updateJustified t j f b).1 | _ => False) ∧
       (_ → (stepLive fc (.justify t j f b)).2 = (a.updateJustified t j f b).2)
     unfold stepLive
     simp only
     revert hs
     cases FC.updateJustified { fc with pa := { fc.pa with sinkLog := [] } } t j f b with
-    | ok s u => exact fun hs => ⟨hs.2.2.2.1, fun _ => by simp [hs.2.1, sinkReport_nil, hs.2.2.2.2]⟩
-    | err s => exact fun hs => ⟨hs.2.2.2.1, fun _ => by simp [hs.2.1, sinkReport_nil, hs.2.2.2.2]⟩
+    | ok s u => exact fun hs => ⟨hs.2.2.1, fun _ => hs.2.2.2.symm⟩
+    | err s => exact fun hs => ⟨hs.2.2.1, fun _ => hs.2.2.2.symm⟩
     | panic => exact fun hs => hs.elim
     | blocked => exact fun hs => hs.elim
   | pin rt s =>
